@@ -1945,3 +1945,35 @@ def rule_py_bytes_str_arms(rep, floor=4):
             r.check(c.func.attr == want[kinds[0]], "%s:%s#%s%d" % (rel, getattr(_owner_func(c), "name", "<module>"), kinds[0], k), m.where(c), "%s: under `__array__ == %r` the value is converted with %s(); %s data must go through %s()" % (
                 rel, kinds[0], c.func.attr, kinds[0], want[kinds[0]]), detail=want[kinds[0]])
     return r.done()
+
+
+def rule_py_merge_batch(rep, floor=2):
+    r = rep.rule("FAMILY.py-merge-batch", "where the Python layer gathers arrays into a `batch` that is later merged in one call (`batch[0].mergemany(batch[1:])`), an array joins the batch only after `mergeable` was asked of "
+                 "every member (`all(b.mergeable(x, ..) for b in batch)`), not of the last one alone: mergeable is not transitive - an EmptyArray or unknown-type content is mergeable with everything - and mergemany does not "
+                 "re-check (strings and int64 lists were copied byte-wise into one buffer)", floor=floor)
+    for rel in [x for x in pf.all_modules() if "generated_parser" not in x]:
+        m = pf.module(rel)
+        for fn in ast.walk(m.tree):
+            if not isinstance(fn, (ast.FunctionDef, ast.AsyncFunctionDef)):
+                continue
+            merges = [c for c in ast.walk(fn) if isinstance(c, ast.Call) and isinstance(c.func, ast.Attribute) and c.func.attr == "mergemany" and isinstance(c.func.value, ast.Subscript) and isinstance(c.func.value.value, ast.Name)]
+            for bname in sorted(set(c.func.value.value.id for c in merges)):
+                k = 0
+                for c in ast.walk(fn):
+                    if not (isinstance(c, ast.Call) and isinstance(c.func, ast.Attribute) and c.func.attr == "mergeable"):
+                        continue
+                    recv = c.func.value
+                    last_only = isinstance(recv, ast.Subscript) and isinstance(recv.value, ast.Name) and recv.value.id == bname
+                    over_all = False
+                    if isinstance(recv, ast.Name):
+                        # `b.mergeable(x)` inside all(... for b in <batch>)
+                        for g in ast.walk(fn):
+                            if isinstance(g, ast.Call) and isinstance(g.func, ast.Name) and g.func.id == "all" and g.args and isinstance(g.args[0], ast.GeneratorExp) and any(x is c for x in ast.walk(g.args[0])):
+                                gen = g.args[0]
+                                over_all = any(isinstance(cp.iter, ast.Name) and cp.iter.id == bname and isinstance(cp.target, ast.Name) and cp.target.id == recv.id for cp in gen.generators)
+                    if not (last_only or over_all):
+                        continue
+                    k += 1
+                    r.check(over_all, "%s:%s#%s%d" % (rel, fn.name, bname, k), m.where(c), "%s: %s asks `%s` whether the next array may join `%s`: only one member of the batch is consulted before all are merged in one call" % (
+                        rel, fn.name, ast.unparse(c)[:60], bname), detail="all members consulted")
+    return r.done()
